@@ -186,7 +186,7 @@ theorem complex_nan_cell_written_as_missing (E : FloatExt) (m : Str) (fill : PyV
     (hp : parseCell E .complex (E.crepr a b) m fill = .ok v)
     (hf : construct E .complex fill = .ok (.complex c e)) (hb : fIsNaN b = true) (hc : fIsNaN c = true) :
     saveCell E m .complex fill (.complex a b) = .ok m := by
-  simp [saveCell, pyStr, hp, hf, hb, hc, bind, Except.bind, pure, Except.pure]
+  simp [saveCell, trialParse, substitute, pyStr, hp, hf, hb, hc, Except.bind]
 
 /-- the faults that do not end in the SCSV error (as the code is written) -/
 example : roundTrip ⟨some [','], some "-".toList, some [fStr "a" "z"]⟩ [] = .error .index := by decide
